@@ -181,8 +181,9 @@ def geotherm_obligations(chk, ge_mod, tier, rng):
         ctx = new_context()
         tab, vals = sym_table(ctx, "bm", temps, press)
         n = 3
-        Pg = symvars("Pgeo", (n,))
-        Tg = symvars("Tgeo", (n,))
+        # the property quantifies over geotherm paths inside the tabulated range
+        Pg = symvars("Pgeo", (n,), lo=Fraction(press[0]), hi=Fraction(press[-1]))
+        Tg = symvars("Tgeo", (n,), lo=Fraction(temps[0]), hi=Fraction(temps[-1]))
         Dg = symvars("Dgeo", (n,))
         geo = pandas.DataFrame({cols[0]: Pg, cols[1]: Tg, "D": Dg}, dtype=object)
         calls = []
@@ -237,9 +238,11 @@ def geotherm_obligations(chk, ge_mod, tier, rng):
                             sys.modules.pop("scipy.interpolate", None)
                         else:
                             sys.modules["scipy.interpolate"] = saved
-                out = X.run_single_path(fn_default, name=name)
+                paths = X.explore(fn_default, name=name, max_paths=32)
             else:
-                out = X.run_single_path(fn, name=name)
+                paths = X.explore(fn, name=name, max_paths=32)
+            if any(p_.exception is not None for p_ in paths):
+                raise [p_.exception for p_ in paths if p_.exception is not None][0]
         except SymError as e:
             chk.inconclusive(name, str(e))
             continue
@@ -250,16 +253,21 @@ def geotherm_obligations(chk, ge_mod, tier, rng):
         fails = []
         want = [ctx.uf("SPLINE2D", [numpy.array([Sym.of(Fraction(t)) for t in temps], dtype=object),
                                     numpy.array([Sym.of(Fraction(p)) for p in press], dtype=object), vals, Tg[i], Pg[i]]) for i in range(n)]
-        if "bm" not in out.columns:
-            fails.append("no output column for the variable")
-        else:
-            for i in range(n):
-                if Z.prove_equal(Sym.of(out["bm"].iloc[i]), want[i], name=name)[0] != "unsat":
-                    fails.append("value %d is not SPLINE[T grid, P grid, table](T_i, P_i) of the geotherm row" % i)
-                    break
-        for c, arr in ((cols[0], Pg), (cols[1], Tg), ("D", Dg)):
-            if c not in out.columns or not all(Sym.of(a).same(b) for a, b in zip(out[c].tolist(), arr)):
-                fails.append("geotherm column %s is not passed through unchanged" % c)
+        for p_ in paths:
+            out = p_.result
+            with X.path_assumptions(p_):
+                if "bm" not in out.columns:
+                    fails.append("no output column for the variable")
+                else:
+                    for i in range(n):
+                        if Z.prove_equal(Sym.of(out["bm"].iloc[i]), want[i], name=name)[0] != "unsat":
+                            fails.append("value %d is not SPLINE[T grid, P grid, table](T_i, P_i) of the geotherm row" % i)
+                            break
+                for c, arr in ((cols[0], Pg), (cols[1], Tg), ("D", Dg)):
+                    if c not in out.columns or not all(Sym.of(a).same(b) for a, b in zip(out[c].tolist(), arr)):
+                        fails.append("geotherm column %s is not passed through unchanged" % c)
+            if fails:
+                break
         chk.obligation(name + ": value_i = SPLINE[temperatures, pressures, table](T_i, P_i); geotherm columns passed through", "unsat" if not fails else "sat",
                        seconds=round(time.time() - t0, 2), kind="wiring(uninterpreted spline)", detail=fails[:3])
         if fails:
@@ -269,7 +277,7 @@ def geotherm_obligations(chk, ge_mod, tier, rng):
 
 def replay_geotherm(chk, ge_mod, opts, what):
     from click.testing import CliRunner
-    temps = [float(t) for t in range(0, 1100, 100)]
+    temps = [float(t) for t in range(300, 1100, 100)]      # T_MIN = 300 K: larger than every tabulated pressure
     press = [float(p) for p in range(0, 60, 10)]
     f = lambda t, p: 100 + 0.01 * t + 2 * p
     tmp = tempfile.mkdtemp(prefix="c19g_")
